@@ -49,7 +49,7 @@ func c09Scenario(r *vf.Run, t *testing.T, id string, rng *rand.Rand) {
 	g := genOpts{MaxBody: 900, AllowTrail: true, AllowUnder: true, RespStream: true, AllowStream2: true, MaxRespBody: 3000}
 	const bodyLimit = 1000
 	kinds := []string{"malformed-field", "malformed-field", "malformed-field-continued", "body-too-large-declared", "body-too-large-undeclared", "refused", "peer-rst-after-headers", "peer-rst-mid-body",
-		"peer-rst-handler-running", "peer-rst-response-blocked", "peer-rst-after-done", "handler-panic", "window-overflow", "cl-mismatch"}
+		"peer-rst-handler-running", "peer-rst-response-blocked", "peer-rst-after-done", "handler-panic", "window-overflow", "cl-mismatch", "timeout-half-open", "timeout-handler-running"}
 	nOff := 1 + rng.Intn(2)
 	var offKinds []string
 	for i := 0; i < nOff; i++ {
@@ -71,13 +71,19 @@ func c09Scenario(r *vf.Run, t *testing.T, id string, rng *rand.Rand) {
 		failed = true
 	}
 	hasRefused := false
+	hasTimeout := false
 	for _, k := range offKinds {
 		hasRefused = hasRefused || k == "refused"
+		hasTimeout = hasTimeout || strings.HasPrefix(k, "timeout-")
 	}
+	const readTimeout = 5 * time.Second
 	res := rt.RunBubble(t, id, 30*time.Second, func() {
 		so := rt.ServerOpts{MaxRequestBodySize: bodyLimit}
 		if hasRefused {
 			so.MaxConcurrentStreams = 2
+		}
+		if hasTimeout {
+			so.ReadTimeout = readTimeout // the server gives a request this long (virtual time only passes where the script sleeps)
 		}
 		e := rt.NewServerEnv(id, so)
 		e.P.Write(rt.WindowUpdate(0, 1<<30)) // the connection window never limits the well-formed streams
@@ -275,6 +281,51 @@ func c09Scenario(r *vf.Run, t *testing.T, id string, rng *rand.Rand) {
 					rt.Open(gt)
 					rt.Wait()
 				}
+			case "timeout-half-open", "timeout-handler-running":
+				// the server itself gives up on the request (ReadTimeout) and resets the stream; the peer, which has not
+				// seen that yet, carries on: the rest of the body and trailers that insert a table entry of their own
+				fs := append(append([]F{}, base...), ins1, ins2)
+				inserted = append(inserted, ins1, ins2)
+				var gt chan struct{}
+				if kind == "timeout-handler-running" {
+					gt = e.H.NewGate()
+					e.H.SetPlan(tag, &rt.RespPlan{Status: 200, Body: make([]byte, 300), Gate: gt})
+					e.P.Write(rt.Concat(rt.HeaderFrames(sid, enc(fs, choicesFor(fs)), nil, -1, nil, true)))
+				} else {
+					e.P.Write(append(rt.Concat(rt.HeaderFrames(sid, enc(fs, choicesFor(fs)), nil, -1, nil, false)), data(200, false)...))
+				}
+				rt.Wait()
+				time.Sleep(readTimeout + time.Second)
+				rt.Wait()
+				reset := false
+				for _, f := range rt.FramesFor(e.P.Frames(), sid) {
+					reset = reset || f.Type == wire.TRstStream
+				}
+				if !reset {
+					r.Inc("request_timeouts_without_rst_stream", 1)
+				} else {
+					r.Inc("streams_reset_by_the_server_on_request_timeout", 1)
+				}
+				if inflight {
+					var out []byte
+					if kind == "timeout-half-open" {
+						ins3 := F{Name: fmt.Sprintf("x-ins-c-%d", oi), Value: "trailer-" + randToken(rng, 8, customNameAlphabet)}
+						out = append(out, data(300, false)...)
+						out = append(out, rt.Concat(rt.HeaderFrames(sid, enc([]F{ins3}, []hpackref.Choice{incr}), nil, -1, nil, true))...)
+						inserted = append(inserted, ins3)
+					} else {
+						out = append(out, rt.WindowUpdate(sid, 1000)...)
+						out = append(out, rt.RstStream(sid, 8)...)
+					}
+					e.P.Write(out)
+					triggers = append(triggers, "seq.frameAfterStreamErrorOnSameStream")
+					rt.Wait()
+				}
+				if gt != nil {
+					rt.Open(gt)
+					rt.Wait()
+				}
+				serverResets = true
 			case "handler-panic":
 				fs := append(append([]F{}, base...), ins1, ins2)
 				inserted = append(inserted, ins1, ins2)
